@@ -42,6 +42,10 @@ type Program struct {
 	own      map[*types.Package]bool
 	declOf   map[*types.Func]*ast.FuncDecl
 	expanded map[*ssa.Function]bool
+	bce      *BCE
+	gclasses map[string]*GClass
+	fnNames  map[*ssa.Function]string
+	bceErr   error
 	cg       *callgraph.Graph
 	allFuncs map[*ssa.Function]bool
 	LoadSecs float64
